@@ -6,10 +6,12 @@ compared with the ids the real create_db / FeatureDB.update assign; every stored
 Feature; generated near-miss keys must raise FeatureNotFoundError; a multi-valued id attribute reached by the spec
 must make the import raise.  Runtime contract (icontract) on the real _DBCreator._increment_featuretype_autoid.
 
-Case kinds: "import" (optionally with "keys" = non-default [gtf_transcript_key, gtf_gene_key] under id_spec None, or with
+Case kinds: "collide" (an import in which equal id values are expected to collide under "strategy"), "import" (optionally
+with "spec2" = the id_spec of the update() calls, "special"/"absent" = special-looking attribute values, optionally with "keys" = non-default [gtf_transcript_key, gtf_gene_key] under id_spec None, or with
 "family"/"probe" = confusable spellings of the stored ids) and "stale" (Feature handles fetched before delete / update /
 replace, and handles from another database, looked up again; see execute_stale).
 """
+import collections
 import os
 
 from gvmon import dbdump
@@ -28,7 +30,13 @@ RULE = ("files of n in {1..6,8,12,20} lines (GFF3 and GTF) whose features have /
         "contain '%' / '_', the unused members of the family being probed as absent keys; (stale/foreign handles) Feature "
         "objects fetched earlier are looked up again after delete (highest rowid / middle / first), update() (rowids "
         "reused) and replace, through the same or a second FeatureDB on the file, and Features read from another database "
-        "holding the same ids at other positions are looked up. non-trivial = >= 2 different derivation branches taken in "
+        "holding the same ids at other positions are looked up; (special-looking values) id-supplying attributes (ID, Name, Alias, "
+        "gene_id, transcript_id) whose text is 'autoincrement:tx', 'autoincrement:', ':seqid:', ... resolved through default / "
+        "string / list / dict / dict-subclass specs (the text is the key) and through callables that return the attribute text "
+        "(there 'autoincrement:X' means X_n), children naming them as Parent, what an interpretation would give probed as "
+        "absent, two or three features with the same such value under merge_strategy 'error' / 'create_unique'; (dict "
+        "subclasses) defaultdict, a subclass with __missing__, OrderedDict, a plain subclass and a subclass with an aliasing "
+        "__getitem__/get/__contains__ as id_spec, in create_db and/or only in update(id_spec=...). non-trivial = >= 2 different derivation branches taken in "
         "one file (or a rejected multi-valued id), or a handle whose position holds another id; distinct = distinct "
         "(format, spec, path, file content, script)")
 REQUIRED = ["imports", "keys compared with the reference derivation", "lookups db[key]", "lookups db[feature]",
@@ -36,13 +44,27 @@ REQUIRED = ["imports", "keys compared with the reference derivation", "lookups d
             "keys compared: GTF, id_spec None, non-default gtf keys", "confusable stored keys looked up",
             "confusable absent keys probed", "stale handles looked up", "stale handles whose position now holds another id",
             "stale handles whose id is gone: FeatureNotFoundError", "stale handles of a replaced feature: current content returned",
-            "foreign handles looked up", "foreign handles sitting at another position"]
+            "foreign handles looked up", "foreign handles sitting at another position",
+            # attribute values that look like a callable's special return values
+            "attribute value that looks like a callable's special return value is the key",
+            "attribute text 'autoincrement:X' returned by a callable: X_n",
+            "absent keys probed: what a special-looking value would give if it were interpreted",
+            "children of special-looking keys compared (non-empty)",
+            "equal special-looking id values collide: 'error' aborts",
+            "equal special-looking id values collide: create_unique files '<key>_n'",
+            # dict subclasses
+            "dict defaultdict: default_factory", "dict defaultdict: item", "dict missing: __missing__",
+            "dict missing: __missing__ raised KeyError", "dict ordered: item", "dict ordered: no item", "dict subclass: item",
+            "dict getitem: aliasing __getitem__", "update(id_spec=...) under another id_spec than create_db"]
 REQUIRED_CLASSES = ["fmt=gff3", "fmt=gtf"] + ["form=" + f for f in G.FORMS] + ["form=confusable"] + [
     "branch=attribute#0", "branch=attribute#1", "branch=column", "branch=fallback", "branch=dict:no entry->fallback",
     "branch=dict:entry absent->fallback", "branch=callable:None->fallback", "branch=callable:autoincrement",
     "branch=callable:string", "branch=multi-valued->reject", "gtf: id_spec None with non-default gtf keys",
     "confusable=case", "confusable=blank", "confusable=numeric", "confusable=like", "stale: changed through the same handle",
-    "stale: changed through another handle", "stale op=delete top", "stale op=update", "stale op=replace"]
+    "stale: changed through another handle", "stale op=delete top", "stale op=update", "stale op=replace"] + [
+    "form=dict-subclass:" + c for c in G.DICT_CLASSES] + ["form=special:" + f for f in G.SPECIAL_FORMS] + [
+    "dict id_spec class=" + c for c in G.DICT_CLASSES] + ["update(id_spec=...) differs from create_db's id_spec",
+    "equal id values: strategy=error", "equal id values: strategy=create_unique"]
 ASSUMPTIONS = [
     "inputs on which the derived keys collide are not judged (the key would then be altered by the merge strategy, "
     "which is C05's subject); they are skipped and counted",
@@ -58,6 +80,15 @@ ASSUMPTIONS = [
     "db[feature] means db[feature.id]: a Feature fetched earlier or from another database is only a carrier of its id; "
     "what is stored under an id after delete/update/replace is read with plain sqlite3 (not predicted), and an update() "
     "that raises on these inputs is skipped and counted",
+    "only the return value of a callable has the 'autoincrement:X' meaning; an attribute value is text and is the key; a "
+    "feature naming a stored key as Parent is a level-1 child of it (gff3)",
+    "the per-featuretype entry of a dict id_spec is what the object gives for d[featuretype] (items, default_factory, "
+    "__missing__, an overriding __getitem__ kept consistent with get/__contains__); KeyError means no entry. A default_factory "
+    "/ __missing__ that returns None or '' is not generated",
+    "features whose keys by id_spec are equal collide as the statement of C05 says: 'error' aborts, 'create_unique' files the "
+    "later ones under '<key>_1', '<key>_2' (skipped when that name is the key of another feature)",
+    "update(id_spec=...) may differ from create_db's id_spec: each batch is keyed by the id_spec of its call, the "
+    "'<featuretype>_<n>' counters go on",
 ]
 QUICK_SHARDS = 4
 THOROUGH_SHARDS = 16
@@ -74,6 +105,41 @@ def point(fmt):
     return {"fmt": "gff3", "sep": ";", "trailing": False, "repeated": False}
 
 
+class _PlainSubclass(dict):
+    pass
+
+
+class _WithMissing(dict):
+    """Explicit items first, then a rule for some other featuretypes; KeyError for the rest."""
+
+    def __init__(self, computed, items):
+        dict.__init__(self, items)
+        self._computed = computed
+
+    def __missing__(self, featuretype):
+        if featuretype in self._computed:
+            return self._computed[featuretype]
+        raise KeyError(featuretype)
+
+
+class _Aliasing(dict):
+    """Every way of asking (d[k], d.get(k), k in d) goes through the alias table first."""
+
+    def __init__(self, alias, items):
+        dict.__init__(self, items)
+        self._alias = alias
+
+    def __getitem__(self, k):
+        return dict.__getitem__(self, self._alias.get(k, k))
+
+    def get(self, k, default=None):
+        k = self._alias.get(k, k)
+        return dict.__getitem__(self, k) if dict.__contains__(self, k) else default
+
+    def __contains__(self, k):
+        return dict.__contains__(self, self._alias.get(k, k))
+
+
 def real_spec(spec):
     """The object handed to gffutils for a spec description."""
     form = spec["form"]
@@ -82,7 +148,23 @@ def real_spec(spec):
     if form in ("str", "list"):
         return spec["v"] if form == "str" else list(spec["v"])
     if form == "dict":
-        return dict((k, (v if isinstance(v, str) else list(v))) for k, v in spec["v"].items())
+        ent = lambda v: v if isinstance(v, str) else list(v)
+        items = [(k, ent(v)) for k, v in spec["v"].items()]
+        cls = spec.get("cls") or "dict"
+        if cls == "dict":
+            return dict(items)
+        if cls == "ordered":
+            return collections.OrderedDict(items)
+        if cls == "subclass":
+            return _PlainSubclass(items)
+        if cls == "defaultdict":
+            default = spec["default"]
+            return collections.defaultdict(lambda: ent(default), items)
+        if cls == "missing":
+            return _WithMissing(dict((k, ent(v)) for k, v in (spec.get("missing") or {}).items()), items)
+        if cls == "getitem":
+            return _Aliasing(dict(spec.get("alias") or {}), items)
+        raise ValueError(cls)
     fn = MC.CALLABLES[spec["v"]]
 
     def id_callable(f):
@@ -105,10 +187,14 @@ def execute(ctx, case):
         return execute_stale(ctx, case)
     fmt, spec = case["fmt"], case["spec"]
     batches = case["batches"]
+    collide = case.get("kind") == "collide"
+    strategy = case["strategy"] if collide else "error"
     # ---- reference derivation, batch by batch, one set of counters
     deriver = None
     plan = []
-    for b in batches:
+    for bi, b in enumerate(batches):
+        if bi >= 1 and case.get("spec2"):
+            deriver.use(case["spec2"])          # update(id_spec=...) under another id_spec; the counters go on
         r = MC.derive_all(spec, fmt, b, deriver)
         deriver = r["deriver"]
         plan.append(r)
@@ -118,9 +204,32 @@ def execute(ctx, case):
         ctx.skip("statement silent: " + [r["why"] for r in plan if r["outcome"] == "silent"][0].split("'")[0])
         return None
     allkeys = [k for r in plan if r["outcome"] == "keys" for k in r["keys"]]
+    final = [list(r["keys"]) for r in plan]
+    abort_at = None
     if len(set(allkeys)) != len(allkeys):
-        ctx.skip("derived keys collide (merge strategy decides: C05)")
-        return None
+        if not collide:
+            ctx.skip("derived keys collide (merge strategy decides: C05)")
+            return None
+        # duplicates collide like any duplicates (statement of C05): 'error' aborts, 'create_unique' files the later
+        # ones under '<key>_1', '<key>_2', ...
+        taken, count = set(), {}
+        for bi, r in enumerate(plan):
+            for i, k in enumerate(r["keys"]):
+                if k in taken:
+                    if strategy == "error":
+                        abort_at = bi
+                        break
+                    count[k] = count.get(k, 0) + 1
+                    new = "%s_%d" % (k, count[k])
+                    if new in taken or new in allkeys:
+                        ctx.skip("statement silent: fresh '<key>_n' is the key of another feature")
+                        return None
+                    final[bi][i] = k = new
+                taken.add(k)
+            if abort_at is not None:
+                break
+    elif collide:
+        ctx.mon("equal id values that do not collide under this id_spec (judged as an ordinary import)")
     branches = [b for r in plan for b in r["branches"]]
 
     dbfn = ctx.tmp(".db") if case["db"] == "file" else ":memory:"
@@ -133,6 +242,13 @@ def execute(ctx, case):
     kw_create = dict(kw)
     if case.get("keys"):
         kw_create.update(gtf_transcript_key=case["keys"][0], gtf_gene_key=case["keys"][1])
+    kw_update = dict(kw)
+    if case.get("spec2"):
+        kw_update.pop("id_spec", None)
+        if case["spec2"]["form"] != "none":
+            kw_update["id_spec"] = real_spec(case["spec2"])
+    if collide:
+        kw_create["merge_strategy"] = strategy
     db = None
     try:
         expected, recs_so_far = [], []
@@ -151,14 +267,21 @@ def execute(ctx, case):
                     db = gffutils.create_db(data, dbfn, from_string=from_string, **kw_create)
                     ctx.mon("imports")
                 else:
-                    db.update(data, from_string=from_string, make_backup=False, merge_strategy="error", **kw)
+                    db.update(data, from_string=from_string, make_backup=False, merge_strategy=strategy, **kw_update)
                     ctx.mon("update() imports")
+                    if case.get("spec2"):
+                        ctx.mon("update(id_spec=...) under another id_spec than create_db")
             except Exception as ex:
                 if r["outcome"] == "reject":
                     ctx.mon("multi-valued id rejected")
                     break
+                if abort_at == bi:
+                    ctx.mon("equal id values collide: 'error' aborts")
+                    if MC.looks_special(case.get("dup") or ""):
+                        ctx.mon("equal special-looking id values collide: 'error' aborts")
+                    break
                 ctx.violation(case, {"why": "%s raised %r on an input whose keys are all distinct" % (
-                    "create_db" if bi == 0 else "update", ex), "expected keys": r["keys"], "text": text})
+                    "create_db" if bi == 0 else "update", ex), "expected keys": final[bi], "text": text})
                 contracts.drain()
                 return branches
             if bi == 0 and db.dialect["fmt"] != fmt:
@@ -170,7 +293,13 @@ def execute(ctx, case):
                                      "stored ids": stored[-8:], "text": text})
                 contracts.drain()
                 return branches
-            expected += r["keys"]
+            if abort_at == bi:
+                stored = [f["id"] for f in dbdump.dump_db(db)["features"]]
+                ctx.violation(case, {"why": "features whose id_spec keys are equal do not collide: merge_strategy='error' did not abort",
+                                     "keys by id_spec": r["keys"], "stored ids": stored[-12:], "spec": case["spec"], "text": text})
+                contracts.drain()
+                return branches
+            expected += final[bi]
             recs_so_far += b
             if not compare(ctx, case, db, expected, recs_so_far, branches, deriver, "after %s" % ("create_db" if bi == 0 else "update")):
                 contracts.drain()
@@ -181,6 +310,12 @@ def execute(ctx, case):
                 db = gffutils.FeatureDB(dbfn)
                 ctx.mon("reopened databases")
                 compare(ctx, case, db, expected, recs_so_far, branches, deriver, "after reopen")
+            for name, n in deriver.stats.items():
+                ctx.mon(name, n)
+            if collide and final != [list(r["keys"]) for r in plan]:
+                ctx.mon("equal id values collide: create_unique files '<key>_n'")
+                if MC.looks_special(case.get("dup") or ""):
+                    ctx.mon("equal special-looking id values collide: create_unique files '<key>_n'")
     finally:
         try:
             if db is not None:
@@ -257,6 +392,25 @@ def compare(ctx, case, db, expected, recs, branches, deriver, what):
                     ctx.violation(case, {"why": "%s: %s returns a feature that is not the input line with that key" % (what, how),
                                          "key": f.id, "got": str(g), "line": MD.render_line(rec, point(case["fmt"]))})
                     return False
+    # ---- children naming a special-looking key as Parent hang off that very key (gff3)
+    if case.get("special") and case["fmt"] == "gff3":
+        for key in ids:
+            if not MC.looks_special(key):
+                continue
+            want = set(k for k, rec in zip(expected, recs) if key in MC.attrs_of(rec).get("Parent", []) and k != key)
+            have = set(c for p, c, lv in dump["relations"] if p == key and lv == 1)
+            try:
+                kids = set(c.id for c in db.children(key, level=1))
+            except Exception as ex:
+                ctx.violation(case, {"why": "%s: children(%r) raised %r" % (what, key, ex), "text": text})
+                return False
+            ctx.mon("children of special-looking keys compared")
+            if want:
+                ctx.mon("children of special-looking keys compared (non-empty)")
+            if have != want or kids != want:
+                ctx.violation(case, {"why": "%s: the features naming the key %r as Parent are not its children" % (what, key),
+                                     "level-1 rows": sorted(have), "children()": sorted(kids), "expected": sorted(want), "text": text})
+                return False
     # ---- absent keys: near misses of the stored keys and of the counters
     stored = set(ids)
     probes = []
@@ -267,6 +421,8 @@ def compare(ctx, case, db, expected, recs, branches, deriver, what):
         probes += ["%s_%d" % (base, n + 1), "%s_0" % base, "%s_%02d" % (base, n), "%s-%d" % (base, n), base]
     probes += ["exon_0", "", "ID", "None", "%", "_"]
     probes += list(case.get("probe") or ())
+    absent = set(case.get("absent") or ())
+    probes += list(case.get("absent") or ())
     for k in dict.fromkeys(probes):
         if k in stored:
             continue
@@ -275,6 +431,8 @@ def compare(ctx, case, db, expected, recs, branches, deriver, what):
             ctx.mon("absent keys probed")
             if k in family:
                 ctx.mon("confusable absent keys probed")
+            if k in absent:
+                ctx.mon("absent keys probed: what a special-looking value would give if it were interpreted")
             try:
                 got = db[arg]
             except gffutils.FeatureNotFoundError:
@@ -457,10 +615,18 @@ def account(ctx, case, branches):
         ctx.classes["gtf: id_spec None with non-default gtf keys"] += 1
     if case.get("family"):
         ctx.classes["confusable=" + case["family"]] += 1
+    for sp in (case["spec"], case.get("spec2")):
+        if sp and sp.get("cls"):
+            ctx.classes["dict id_spec class=" + sp["cls"]] += 1
+    if case.get("spec2"):
+        ctx.classes["update(id_spec=...) differs from create_db's id_spec"] += 1
+    if case.get("kind") == "collide":
+        ctx.classes["equal id values: strategy=" + case["strategy"]] += 1
     text = "".join(text_of(b, case["fmt"]) for b in case["batches"])
-    ctx.case((case["fmt"], case["spec"], len(case["batches"]), case["infer"], case.get("keys"), text),
-             len(kinds) >= 2 or outcome == "reject" or bool(case.get("family")),
-             sample={"fmt": case["fmt"], "spec": case["spec"], "branches": kinds, "keys": case.get("keys"), "text": text[:500]})
+    ctx.case((case["fmt"], case["spec"], case.get("spec2"), case.get("strategy"), len(case["batches"]), case["infer"], case.get("keys"), text),
+             len(kinds) >= 2 or outcome == "reject" or bool(case.get("family")) or bool(case.get("special")),
+             sample={"fmt": case["fmt"], "spec": case["spec"], "spec2": case.get("spec2"), "branches": kinds, "keys": case.get("keys"),
+                     "text": text[:500]})
 
 
 def run(ctx):
@@ -470,7 +636,15 @@ def run(ctx):
         branches = execute(ctx, case)
         if branches is not None:
             account(ctx, case, branches)
-    for gen, quick, thorough in ((G.gen_keys_case, 320, 6000), (G.gen_confusable_case, 160, 3000)):
+    # dict id_spec objects that are dict subclasses (each class on every shard) / attribute values that look like the
+    # special return values of a callable / equal such values colliding
+    for i in range(ctx.budget(480, 9000)):
+        case = G.gen_dictsub_case(rng, cls=G.DICT_CLASSES[i % len(G.DICT_CLASSES)] if i < 40 else None)
+        branches = execute(ctx, case)
+        if branches is not None:
+            account(ctx, case, branches)
+    for gen, quick, thorough in ((G.gen_keys_case, 320, 6000), (G.gen_confusable_case, 160, 3000), (G.gen_special_case, 480, 9000),
+                                 (G.gen_collide_case, 200, 4000)):
         for _ in range(ctx.budget(quick, thorough)):
             case = gen(rng)
             branches = execute(ctx, case)
@@ -505,7 +679,11 @@ MANIFEST = {
             "ids that differ only in case / blanks / numeric spelling / '%' and '_' are looked up exactly and the unused "
             "spellings probed as absent; Feature objects fetched before a delete / update (rowids reused) / replace, "
             "through the same or a second FeatureDB, and Features read from another database are looked up again: the "
-            "result must be the feature now stored under feature.id, or FeatureNotFoundError.",
+            "result must be the feature now stored under feature.id, or FeatureNotFoundError. Attribute values that look like "
+            "a callable's special return values ('autoincrement:X', ':seqid:') must be the key verbatim under every non-callable "
+            "spec form, keep their children, and collide when equal; dict id_spec objects of five dict subclasses (defaultdict, "
+            "__missing__, OrderedDict, plain, aliasing __getitem__) must be asked with d[featuretype], in create_db and in "
+            "update(id_spec=...).",
     "note": "Trusted: gvmon/models/C04.py, the reference renderer, icontract. Inputs whose derived keys collide are "
             "skipped (C05 judges them).",
 }
